@@ -77,7 +77,9 @@ def instances(rng, nodes, imps):
     n = rng.choice(nodes)
     frag = rng.choice([n, "*" + n[-1:], n[:1] + "*", "*" + n[len(n) // 2:] + "*", "*" + n.split(".")[-1]])
     rx = convert_partial_match_to_regex(frag)
-    if any(re.match(rx, m) for m in nodes):
+    from ..rules_common import _safe_matches
+
+    if _safe_matches(rx, nodes):
         c1 = {"nodes": nodes, "imps": imps, "lim": None, "spec": None, "mtab": mtab([rx], nodes),
               "ops": [("mt", None), ("contain", [frag]), (verb, None)] + rule_ops_for(verb, imp, exc, ("N", ["x"]), other, anything)[3:]}
         c2 = _case(nodes, imps, verb, imp, exc, ("R", rx), other, anything, mtab([rx], nodes))
@@ -153,6 +155,11 @@ def run(ctx: Ctx):
         s.finish()
     from ..rules_common import reuse_stream
 
+    from ..rules_common import partial_name_stream
+
+    s = Stream(ctx, "partial names (have_name_containing) vs the modules their glob meaning selects")
+    partial_name_stream(ctx, s, ctx.size(1500, 15000))
+    s.finish()
     s = Stream(ctx, "re-used rule objects: second application vs a fresh rule object")
     reuse_stream(ctx, s, ctx.size(800, 10000))
     s.finish()
